@@ -111,6 +111,23 @@ def check_case(acc, cls, first_line: str, content: str, label: str, additional=N
             vs.append(mk("C08:argument-count", inp, nargs, res.arguments))
         if " ".join(" ".join(res.arguments).split()) != " ".join(first_line.split()):
             vs.append(mk("C08:argument-text-lost", inp, first_line.split(), res.arguments))
+        else:
+            # exact split: whitespace-separated words, except that with final_argument_whitespace the last declared
+            # argument is the verbatim rest of the line (its inner white space is part of the argument; trailing white
+            # space is don't-care).  Written as a scan, independently of str.split(None, n).
+            words = first_line.split()
+            limit = cls.required_arguments + cls.optional_arguments
+            if len(words) > limit:
+                pos = 0
+                for w in words[:limit - 1]:
+                    pos = first_line.index(w, pos) + len(w)
+                rest = first_line[pos:].strip()
+                want_args = words[:limit - 1] + [rest]
+            else:
+                want_args = words
+            got_args = [a.rstrip() if i == len(res.arguments) - 1 else a for i, a in enumerate(res.arguments)]
+            if got_args != want_args:
+                vs.append(mk("C08:argument-split-not-verbatim", inp, want_args, res.arguments))
     elif res.arguments:
         vs.append(mk("C08:arguments-for-argumentless-directive", inp, [], res.arguments))
     # ---- body / offset
@@ -256,7 +273,7 @@ def make_shapes():
 
 VOCAB = [":class: a", ":name: b", ":bogus: c", ":class:", "", "text", "---", "----", "class: a", "  indented",
          ":::", "   "]
-FIRST_LINES = ["", "one", "one two three", "arg  ", "  "]
+FIRST_LINES = ["", "one", "one two three", "arg  ", "  ", "one  two   three", "a\tb  c d", " lead two"]
 
 
 def sub_synthetic(acc, shard, nshards, tier, seed):
@@ -274,7 +291,7 @@ def sub_synthetic(acc, shard, nshards, tier, seed):
                 content = "\n".join(lines) + (trailing if lines else "")
                 for label, cls in shapes.items():
                     # first lines: all for small contents, two for the largest size
-                    fls = FIRST_LINES if n < maxlen else FIRST_LINES[:2]
+                    fls = FIRST_LINES if n < maxlen - 1 else (FIRST_LINES[:5] if n < maxlen else FIRST_LINES[:2])
                     for fl in fls:
                         for v in check_case(acc, cls, fl, content, label):
                             _store(acc, kn, v)
